@@ -32,6 +32,7 @@ def check(tier):
     run_family(rep, pvh, "MC_RenderC02_routes.cfg")
     run_family(rep, pvh, "MC_RenderC02_mapkey.cfg")
     run_family(rep, pvh, "MC_RenderC02_ftparam.cfg")
+    run_family(rep, pvh, "MC_RenderC02_chainparam.cfg")
     reg = run_harness(pvh, ["registry"])["extra"]
     optout = {"safe", "truncatechars_html", "truncatewords_html", "random"}
     filters = [f for f in reg["filters"] if f not in optout]
